@@ -181,10 +181,10 @@ class RegionVisual(Meta):
             A dictionary of matplotlib keyword arguments.
         """
         if artist == 'Text':
-            keymap = {'font': 'family',
-                      'fontstyle': 'style',
-                      'fontweight': 'weight',
-                      'fontsize': 'size',
+            # use the matplotlib property names (not their aliases) so
+            # that the same keyword given by the caller overrides the
+            # value instead of conflicting with it
+            keymap = {'font': 'fontfamily',
                       'textangle': 'rotation'}
 
         elif artist == 'Line2D':
